@@ -370,6 +370,9 @@ func (g *goBuilder) canon(t types.Type, v string) string {
 
 func (e *Engine) replayObligation(opts Options, prop, base string, d Discharged) (string, bool) {
 	o := d.O
+	if o.Failed != nil {
+		o = o.Failed
+	}
 	u := o.Unit
 	fn := u.fn
 	if fn == nil || fn.Parent() != nil || fn.Pkg == nil {
@@ -433,10 +436,14 @@ func (e *Engine) replayObligation(opts Options, prop, base string, d Discharged)
 	}
 	inProbes = keep
 	var outProbes []probe
-	if !expectPanic && u.retState != nil {
+	retState, retVals := u.retState, u.retVals
+	if o.RetState != nil {
+		retState, retVals = o.RetState, o.RetVals
+	}
+	if !expectPanic && retState != nil {
 		saved := u.entry
-		u.entry = u.retState // walkProbes loads from u.entry
-		for i, rv := range u.retVals {
+		u.entry = retState // walkProbes loads from u.entry
+		for i, rv := range retVals {
 			var all []probe
 			u.walkProbes(fmt.Sprintf("r%d", i), rv, fn.Signature.Results().At(i).Type(), 3, &all)
 			inProp := map[int]bool{}
